@@ -33,6 +33,9 @@ Monitors (all decide on bytes produced by the real library):
                  clump size (8192 / 65468) after, between or behind small
                  ones.
   d_recv route   SynthDef._do_send: when /d_recv is chosen the datagram fits.
+
+Observation outside the property (counted, never a violation): MIDI 4-tuples
+with values outside 0-255 are masked with & 0xFF (observed_midi_bytes_masked).
 """
 
 from vf.common import iter_cases, case_rng, h64, split, short_tb, tb_sites
@@ -71,7 +74,14 @@ ASSUMPTIONS = [
     "from a quiet main thread",
     "strings are UTF-8 (the statement's domain includes non-ASCII strings; "
     "OSC 1.0 itself only knows ASCII); addresses must begin with '/' "
-    "(OSC 1.0); 4-tuples are MIDI messages of four bytes (builder docstring)",
+    "(OSC 1.0)",
+    "4-tuples (the 'm' MIDI extension of the builder) are outside the "
+    "property's argument domain: tuples of four bytes are round-tripped like "
+    "everything else, tuples with values outside 0-255 give no verdict; the "
+    "library masks them with & 0xFF instead of refusing (counter "
+    "observed_midi_bytes_masked, suggestion in "
+    "proposed_fixes/C06-midi-bytes-masked.md) - an observation, not a "
+    "violation",
     "SynthDef._do_send is driven with a SynthDef object whose bytes are "
     "injected and a non-local address: the /d_load fallback (def file "
     "written to disk) is not exercised",
@@ -234,6 +244,9 @@ def check_packet(cx, i, lst, is_bundle, rng, hostile):
     acc.count(f'{what}s_accepted')
     if undecided:
         acc.count(f'accepted_undecided/{undecided}')
+        if undecided == 'midi-byte-out-of-range':
+            # observation outside the property (see ASSUMPTIONS)
+            acc.count('observed_midi_bytes_masked')
         return None
     if must:
         how = 'nonconformant'
